@@ -10,6 +10,7 @@ from engine import pat
 from engine.util import own_nodes, calls_with_nodes, where, with_exprs
 
 RULES = {
+    "R-03.9": "EDNS options and records keep every field through parse: a value read from the wire is never dropped on the way to the constructor (C02 R-02.7 adopted)",
     "R-03.8": "rendering with the default limit never fails for a message that was parsed from the wire: the default derives from request_payload, else 65535 (C08 R-08.6 adopted)",
     "R-03.7": "the offsets entered into the compression table are the positions where the suffix starts and fit 14 bits (C01 R-01.4 adopted)",
     "R-03.6": "the compression table and Message.index are keyed by names: Name equality is derived from the one three-way comparison (C06 R-06.1 adopted), so two names with different label boundaries never collide",
@@ -211,6 +212,7 @@ def run(model, rep, tier):
               f"questions are stored with {kwq}: a repeated question is folded into the first one, so the parsed message has fewer questions than QDCOUNT and re-renders to different octets", stmt="question-unique")
     rep.share(model, "C01", {"R-01.4"}, "R-03.7", "every compressed name in a rendered message is a pointer produced by Name.to_wire from the table offsets")
     rep.share(model, "C08", {"R-08.6"}, "R-03.8", "re-rendering a parsed message must not hit a limit the original did not have: the default limit comes from request_payload (0 on a parsed message), not from the message's own OPT")
+    rep.share(model, "C02", {"R-02.7"}, "R-03.9", "the OPT record's options and every rdata of a message are decoded by the per-type from_wire_parser methods")
     rep.meta["explanation"] = (
         "Layout agreement of the hand-written writer/reader pairs at the message layer (struct formats folded and compared field by field), statement-position rule for the section counts, "
         "provenance of the compression table argument at every to_wire call that receives the renderer's buffer, and who-may-write on the section index. "
